@@ -597,6 +597,7 @@ CheckStmt(s, env) ==
               ELSE IF FirstErr(errs) # "" THEN Fail(env, FirstErr(errs))
               ELSE DeclareAll(e1, s.names, [j \in 1..n |-> IF s.t # "" THEN TY(s.t) ELSE Default(r.ops[j].t)], FALSE, 1)
     [] s.k = "const" -> ConstDecl(env, s.name, s.t, s.e)
+    [] s.k = "typedecl" -> Declare(env, s.name, TVoid, "type", NoCV)      \* type name int  (a local defined type; never "unused")
     [] s.k = "define" ->
          LET n == Len(s.names) r == Rhs(s.es, n, env, TRUE) e1 == MarkUsed(env, IdentsOfSeq(s.es))
              isnew == [j \in 1..n |-> s.names[j] # "_" /\ ~DeclaredHere(env, s.names[j])]
